@@ -126,7 +126,7 @@ Lemma step_instun_inert cfg s lh src m :
   (forall l, handle_inbound cfg l src m s = (s, [])) ->
   step cfg s (InStun lh src m) = (s, []).
 Proof.
-  intros H. cbn [step]. destruct (s_closed s); [reflexivity|].
+  intros H. unfold step, step_m, with_state. destruct (s_closed s); [reflexivity|].
   destruct (find_local lh s); [apply H|reflexivity].
 Qed.
 
@@ -137,8 +137,7 @@ Lemma restart_creds lu lp s :
   let s' := fst (do_restart lu lp s) in
   s_lufrag s' = lu /\ s_lpwd s' = lp /\ s_rufrag s' = 0 /\ s_rpwd s' = 0.
 Proof.
-  intros Hc. unfold do_restart. rewrite Hc.
-  unfold seq, modify, set_selector, with_state, emit, update_conn. cbn [fst snd].
-  match goal with |- context [if ?c then _ else _] => destruct c end;
-  cbn; repeat match goal with |- context [if ?c then _ else _] => destruct c end; cbn; auto.
+  intros Hc. unfold do_restart, with_state. rewrite Hc.
+  unfold seq, modify, set_selector, with_state, emit, nop, update_conn. cbn.
+  repeat match goal with |- context [if ?c then _ else _] => destruct c; cbn end; repeat split; reflexivity.
 Qed.
